@@ -71,16 +71,59 @@ structure Acceptor (σ α ω : Type) where
   lts      : Lts σ α
   internal : σ → List α
   matching : σ → ω → List α
+  /-- *eager* internal actions: progress of one thread that commutes with every other action and
+  never disables one (a goroutine running to its end, a manager exiting after cancellation).
+  They are applied at once, and the state before them is not kept: this is a partial-order
+  reduction that keeps the set of compatible states small.  Soundness (`accept_sound`) does not
+  depend on the choice; completeness of the acceptor for conforming traces does, and is what the
+  unchanged-tree sweeps exercise. -/
+  eager    : σ → List α := fun _ => []
 
 variable {ω : Type}
 
 def insertNew [BEq σ] (acc : List σ) (s : σ) : List σ := if acc.contains s then acc else acc ++ [s]
 
+/-- apply the first enabled action of `acts`, if any -/
+def firstStep (L : Lts σ α) (s : σ) : List α → Option σ
+  | [] => none
+  | a :: as => match L.step s a with
+    | some s' => some s'
+    | none => firstStep L s as
+
+/-- run eager actions to a fixed point (at most `n` of them) -/
+def eagerClose (A : Acceptor σ α ω) : Nat → σ → σ
+  | 0, s => s
+  | n + 1, s => match firstStep A.lts s (A.eager s) with
+    | some s' => eagerClose A n s'
+    | none => s
+
+theorem firstStep_reach {L : Lts σ α} {s s' : σ} {acts : List α} (h : firstStep L s acts = some s') :
+    ∃ a, L.step s a = some s' := by
+  induction acts with
+  | nil => simp [firstStep] at h
+  | cons a as ih =>
+    simp only [firstStep] at h
+    cases hs : L.step s a with
+    | none => simp [hs] at h; exact ih h
+    | some t => simp [hs] at h; subst h; exact ⟨a, hs⟩
+
+theorem eagerClose_reach (A : Acceptor σ α ω) (init : σ) (n : Nat) (s : σ) (h : Reach A.lts init s) :
+    Reach A.lts init (eagerClose A n s) := by
+  induction n generalizing s with
+  | zero => simpa [eagerClose] using h
+  | succ n ih =>
+    simp only [eagerClose]
+    cases hf : firstStep A.lts s (A.eager s) with
+    | none => simpa using h
+    | some s' =>
+      obtain ⟨a, ha⟩ := firstStep_reach hf
+      exact ih s' (.step h ha)
+
 /-- one round of internal steps from every state of the frontier -/
 def tauRound [BEq σ] (A : Acceptor σ α ω) (front : List σ) : List σ :=
   front.foldl (fun acc s => (A.internal s).foldl (fun acc a =>
     match A.lts.step s a with
-    | some s' => insertNew acc s'
+    | some s' => insertNew acc (eagerClose A 64 s')
     | none => acc) acc) front
 
 /-- τ-closure by iteration (fuel bounds the number of rounds; it stops at a fixed point) -/
@@ -93,7 +136,7 @@ def tauClosure [BEq σ] (A : Acceptor σ α ω) : Nat → List σ → List σ
 def obsStep [BEq σ] (A : Acceptor σ α ω) (fuel : Nat) (front : List σ) (o : ω) : List σ :=
   (tauClosure A fuel front).foldl (fun acc s => (A.matching s o).foldl (fun acc a =>
     match A.lts.step s a with
-    | some s' => insertNew acc s'
+    | some s' => insertNew acc (eagerClose A 64 s')
     | none => acc) acc) []
 
 /-- `ok front` = the states compatible with the whole trace (after a final τ-closure);
@@ -119,7 +162,7 @@ theorem tauRound_sound [BEq σ] (A : Acceptor σ α ω) (init : σ) (front : Lis
   have key : ∀ (l : List σ) (acc : List σ), (∀ s ∈ l, Reach A.lts init s) → (∀ s ∈ acc, Reach A.lts init s) →
       ∀ s ∈ l.foldl (fun acc s => (A.internal s).foldl (fun acc a =>
         match A.lts.step s a with
-        | some s' => insertNew acc s'
+        | some s' => insertNew acc (eagerClose A 64 s')
         | none => acc) acc) acc, Reach A.lts init s := by
     intro l
     induction l with
@@ -142,7 +185,7 @@ theorem tauRound_sound [BEq σ] (A : Acceptor σ α ω) (init : σ) (front : Lis
             intro s hs
             rcases mem_insertNew hs with h1 | h1
             · exact ha s h1
-            · subst h1; exact .step hx hst
+            · subst h1; exact eagerClose_reach A init 64 _ (.step hx hst)
   exact key front front h h
 
 theorem tauClosure_sound [BEq σ] (A : Acceptor σ α ω) (init : σ) (n : Nat) (front : List σ)
@@ -163,7 +206,7 @@ theorem obsStep_sound [BEq σ] (A : Acceptor σ α ω) (init : σ) (n : Nat) (fr
   have key : ∀ (l : List σ) (acc : List σ), (∀ s ∈ l, Reach A.lts init s) → (∀ s ∈ acc, Reach A.lts init s) →
       ∀ s ∈ l.foldl (fun acc s => (A.matching s o).foldl (fun acc a =>
         match A.lts.step s a with
-        | some s' => insertNew acc s'
+        | some s' => insertNew acc (eagerClose A 64 s')
         | none => acc) acc) acc, Reach A.lts init s := by
     intro l
     induction l with
@@ -186,7 +229,7 @@ theorem obsStep_sound [BEq σ] (A : Acceptor σ α ω) (init : σ) (n : Nat) (fr
             intro s hs
             rcases mem_insertNew hs with h1 | h1
             · exact ha s h1
-            · subst h1; exact .step hx hst
+            · subst h1; exact eagerClose_reach A init 64 _ (.step hx hst)
   exact key cl [] hc (by simp)
 
 /-- every state the acceptor ends with is a reachable state of the model: "accepted" means
